@@ -357,6 +357,46 @@ fn detection_boundaries() {
 	assert!(bad.is_empty(), "{} violations, first: {:?}", bad.len(), &bad[..bad.len().min(3)]);
 }
 
+/// YAML streams with every kind of document separator (---, ..., repeated ..., comments, directives)
+/// give the same documents through the chunker (reader, any read size) as from a slice.
+#[test]
+fn yaml_separators_reader_equals_slice() {
+	struct Tiny<'a>(&'a [u8], usize);
+	impl<'a> Read for Tiny<'a> {
+		fn read(&mut self, b: &mut [u8]) -> io::Result<usize> {
+			let n = self.1.min(self.0.len()).min(b.len());
+			b[..n].copy_from_slice(&self.0[..n]);
+			self.0 = &self.0[n..];
+			Ok(n)
+		}
+	}
+	let streams = [
+		"a: 1\n---\nb: 2\n",
+		"a: 1\n...\n---\nb: 2\n",
+		"a: 1\n...\n...\n---\nb: 2\n",
+		"--- a\n--- b\n--- c\n",
+		"# comment\n---\na: 1\n# between\n---\n# leading\nb: [1, 2]\n...\n",
+		"%YAML 1.2\n---\na: 1\n...\n%YAML 1.2\n---\nb: 2\n",
+		"- 1\n- 2\n---\n...\n---\nx\n",
+		"a: 1\n...\n\n\n...\n---\n- b\n---\n- c\n...\n",
+	];
+	let mut bad = vec![];
+	for text in streams {
+		for (how, from) in [("-f yaml", Some(Format::Yaml)), ("detected", None)] {
+			let mut want = Vec::new();
+			let rs = xt::translate_slice(text.as_bytes(), from, Format::Json, &mut want).map_err(|e| e.to_string());
+			for chunk in [1usize, 3, 4096] {
+				let mut out = Vec::new();
+				let rr = xt::translate_reader(Tiny(text.as_bytes(), chunk), from, Format::Json, &mut out).map_err(|e| e.to_string());
+				if rs.is_ok() != rr.is_ok() || (rs.is_ok() && out != want) {
+					bad.push(format!("{text:?} reads of {chunk}, {how}: slice {rs:?} {:?} vs reader {rr:?} {:?}", String::from_utf8_lossy(&want), String::from_utf8_lossy(&out)));
+				}
+			}
+		}
+	}
+	assert!(bad.is_empty(), "{} violations, first: {:?}", bad.len(), &bad[..bad.len().min(3)]);
+}
+
 #[test]
 fn syntax_error_at_every_position_keeps_the_parser_message() {
 	let mut bad = vec![];
